@@ -111,12 +111,13 @@ def sorted_conclusive(sc, tr):
         order = [x for _, x in sorted(zip(keys, act), key=lambda z: z[0])]
         rates = [0.0] * len(ids)
         if sc["party"].get("uninterrupted"):
-            # minimum pilots are pre-granted; only calls in which every minimum fits with margin are compared
-            for x in act:
-                rates[x["i"]] = x["min_pilot"]
-                ok, concl = alloc.feasible(cons, phases, rates, guard=1e-7)
-                if not (ok and concl):
-                    return False
+            # minimum pilots are pre-granted in order of remaining time; only calls whose pre-allocation does not hinge on a
+            # tie (every order consistent with the ties gives the same result) and grants every minimum are compared
+            lbs, refused = alloc.min_alloc(act, cons, phases, len(ids), c["t"], guard=1e-7)
+            if lbs is None or refused:
+                return False
+            for i_, (lb_, _) in lbs.items():
+                rates[i_] = lb_
         for x in order:
             i = x["i"]
             ub = min(max(x["max_pilot"], rates[i]), x["rem_ap"])
